@@ -16,7 +16,7 @@ replacing, and the vanished-key arms compare against retirement_timestamp() befo
 retired_at, refcount = 0 and link_successor are written only with the bucket guard held, and retired_at only by the three
 removal paths. Not decided: linearizability of histories.
 """
-DECIDED = ["pointer-identity re-validation before replace/remove", "retirement_timestamp comparison for raced writers",
+DECIDED = ['expiry inside increment / CAS is judged against the wall clock every reader uses (shared with C11.pred)', "pointer-identity re-validation before replace/remove", "retirement_timestamp comparison for raced writers",
            "retirement stamps / successor links only under the bucket guard",
            'a lost compare-exchange of the version clock is retried and its result examined',
            'retirement_timestamp walks the whole successor chain']
@@ -24,11 +24,12 @@ NOT_DECIDED = ["linearizability of concurrent histories", "no lost increment / e
 ASSUMPTIONS = ["the scc entry guard serialises all mutations of one key (by its types)"]
 
 
-def check_identity(ctx):
-    inst = "C07.identity"
+def check_identity(ctx, inst="C07.identity", kinds=("repl", "rem")):
     for fn, kind in (("FeoxStore::replace_record_if_current", "repl"), ("FeoxStore::atomic_increment_with_timestamp_and_ttl", "repl"),
                      ("FeoxStore::retire_expired_if_current", "rem"), ("ttl_sweep::sample_and_expire_batch", "rem"),
                      ("FeoxStore::remove_expired_recovery_winners", "rem")):
+        if kind not in kinds:
+            continue
         body = ctx.fn(fn, inst)
         if body is None:
             continue
@@ -45,6 +46,8 @@ def check_identity(ctx):
             a0, a1 = (root.a + (None, None))[:2]
             under = a0 is not None and (a0.has_call("HashMap::entry") or any(x.k == "local" and "scc::hash_map::OccupiedEntry" in body.local_ty(x.extra) for x in a0.walk()))
             ctx.check(under, inst, "PROVENANCE", body.path, "first operand of the identity test is the entry guard's current record", body.where(s), {"expr": a0.show() if a0 else None})
+    if "repl" not in kinds:
+        return
     # the observed operand is the record the value was resolved from
     body = ctx.fn("FeoxStore::atomic_increment_with_timestamp_and_ttl", inst)
     if body is not None:
@@ -235,7 +238,15 @@ def check_clock(ctx):
     C12.check_next(ctx, "C07.clock")
 
 
+def check_expiry_clock(ctx):
+    """increment / CAS / upsert judge `expired` against the wall clock every reader uses; a test against the version clock (which
+    an explicit future timestamp pushes ahead) restarts a counter other operations still see as live (same rule as C11.pred)"""
+    from rules import C11
+    C11.check_pred(ctx, "C07.expiry-clock")
+
+
 def check(ctx):
+    check_expiry_clock(ctx)
     check_clock(ctx)
     check_retirement_walk(ctx)
     check_gate(ctx)
